@@ -18,7 +18,18 @@ func init() {
 	executors["cl-verify"] = func(o Op) string {
 		s := o["sig"].(map[string]any)
 		sig := &gabi.CLSignature{A: unhx(s["A"]), E: unhx(s["e"]), V: unhx(s["v"]), KeyshareP: unhx(s["KeyshareP"])}
-		return verdict(sig.Verify(execKey(o.str("key")).pk, unhxs(o["msgs"])))
+		pk, msgs := execKey(o.str("key")).pk, unhxs(o["msgs"])
+		// a signature object stays what it is by being verified: asked again, same answer, and
+		// none of its (or the block's) numbers has changed
+		before := showInt(sig.A) + showInt(sig.E) + showInt(sig.V) + showInts(msgs)
+		v := verdict(sig.Verify(pk, msgs))
+		if v2 := verdict(sig.Verify(pk, msgs)); v2 != v {
+			return "unstable-" + v + "-then-" + v2
+		}
+		if after := showInt(sig.A) + showInt(sig.E) + showInt(sig.V) + showInts(msgs); after != before {
+			return "arguments-changed"
+		}
+		return v
 	}
 }
 
@@ -94,6 +105,13 @@ func genC05(g *Rng, tier string, emit func(Op)) {
 				rs, _ = rs.Randomize(pk)
 			}
 			emit(sigOp(kp.id, rs, ms, "randomized", "accept"))
+			// randomisation subtracts e*r from v: about every third result has a negative v
+			for k := 0; k < 40; k++ {
+				if rn, _ := sig.Randomize(pk); rn != nil && rn.V.Sign() < 0 {
+					emit(sigOp(kp.id, rn, ms, "randomized-negative-v", "accept"))
+					break
+				}
+			}
 			// checked against another block / key / keyshare contribution
 			i := g.intn(nb)
 			ms2 := append([]*big.Int{}, ms...)
